@@ -4,8 +4,12 @@
      when the reader has ended;
    - ErrTooLong is reported exactly when the first B = max(cap(buf), maxTokenSize) bytes of the unconsumed
      input are in the buffer and splitFunc says "more" on them (or B = 0);
-   - otherwise the input is exhausted and the scanner's error is the reader's.
-   Same induction as ScannerProofs.scan_loop_spec, with the additional invariant B = max(cap, max). *)
+   - otherwise the input is exhausted and the scanner's error is the reader's;
+   - once the reader has ended the buffer is not full (the end was delivered by a Read call, which needs room):
+     a token cut at EOF comes from fewer than B buffered bytes.
+   Same induction as ScannerProofs.scan_loop_spec, with the additional invariant sc_inv2 (B = max(cap, max)).
+   Proof-engineering note: in the large contexts of ParserFieldsProofs / ParserTopProofs [lia] is called after
+   [clear - ...]; with the whole context it does not terminate in reasonable time. *)
 From GoSse Require Import Base Lines FieldParser Whatwg WhatwgLines Split Scanner Reader ReadLoop Yields
      LineStepProofs ReadLoopProofs SplitProofs ScannerProofs PathProofs.
 From GoSse.Gen Require Import Params.
